@@ -208,6 +208,7 @@ func verifSpecCL(lowered string) primitive.ConsistencyLevel {
 
 // C07: every cached backend session speaks exactly the (version, keyspace, compression) it is filed under.
 //@ type proxy.Proxy
+//@   ghost $localIdx int
 //@   immutable: ctx, logger, sessionsMu, mu, closed, sessions, clients, listeners
 //@   guarded_by sessionsMu: sessions
 //@   guarded_by mu: isConnected, isClosing, clients, listeners
@@ -339,7 +340,10 @@ func verifSpecCL(lowered string) primitive.ConsistencyLevel {
 //   columns"): widths are wsum(...) of the statement's selectors over the TABLE's columns.
 // ---------------------------------------------------------------------------------------------
 
-//@ macro ringOK(p) = p.localNode != nil && forall(k, 0, len(p.nodes), p.nodes[k] != nil && (p.nodes[k] != p.localNode ==> p.nodes[k].addr != nil))
+//@ macro ringOK(p) = p.localNode != nil && forall(k, 0, len(p.nodes), p.nodes[k] != nil && (p.nodes[k] != p.localNode ==> p.nodes[k].addr != nil)) && 0 <= p.$localIdx && p.$localIdx < len(p.nodes) && forall(k, 0, len(p.nodes), (p.nodes[k] == p.localNode) == (k == p.$localIdx))
+// sort.Slice (engine model): new[k] == old[$sortFrom[k]], $sortTo is the inverse permutation
+//@ ghostvar $sortFrom imap
+//@ ghostvar $sortTo imap
 //@ macro selWidth(stmt, n) = wsum(elemtags(stmt.Selectors), sliceoff(stmt.Selectors), n, len(stmt.Selectors))
 
 // The statements a client prepared for local handling stay well-formed (only handlePrepare files them).
@@ -349,6 +353,46 @@ func verifSpecCL(lowered string) primitive.ConsistencyLevel {
 //@ func codecs.EncodeType
 //@   trusted
 //@   modifies nothing
+
+// buildNodes: the ring this proxy presents, computed once from the configuration.
+//   - the local node (configured or backend data center) is part of the ring; every configured peer
+//     whose address differs from the local address is a node of its own, in its own data center or
+//     the local one; peers equal to the local address are dropped; nodes are pairwise distinct;
+//   - without configured tokens and with more than one node: nodes are in address order (no later
+//     node's address is smaller than an earlier one's) and node k gets the single token
+//     MinInt64 + k * (floor((2^64-1) / (peers+1)) + 1) - distinct, starting at the minimum token.
+//@ loop proxy.Proxy.buildNodes #1
+//@   invariant err == nil && p.localNode != nil && fresh(p.localNode) && p.localNode.addr == localAddr && p.localNode.dc == localDC && p.localNode.tokens == localTokens
+//@   invariant len(nodes) >= 1 && len(nodes) <= rangeindex + 2 && fresh(nodes) && sliceoff(nodes) == 0 && nodes[0] == p.localNode && (numPeers > 0 ==> localAddr != nil)
+//@   invariant forall(k, 1, len(nodes), nodes[k] != nil && fresh(nodes[k]) && nodes[k].addr != nil && compareIPAddr(localAddr, nodes[k].addr) != 0 && (!calculateTokens ==> len(nodes[k].tokens) > 0))
+// every peer node is a new object: the nodes are pairwise distinct and the local node occurs once
+//@   invariant forall(k, 1, len(nodes), nodes[k] != p.localNode) && p.$localIdx == 0
+//@   invariant allbelow(nodes) && forall(i, 0, len(nodes), forall(j, 0, len(nodes), i != j ==> nodes[i] != nodes[j]))
+//@   invariant forall(k, 0, len(nodes), below(nodes[k].tokens))
+
+//@ loop proxy.Proxy.buildNodes #2
+//@   invariant err == nil && start != nil && fresh(start) && start != &numTokens && (&numTokens).$v == 18446744073709551615 / (numPeers + 1) + 1
+//@   invariant start.$v == -9223372036854775808 + (rangeindex + 1) * (&numTokens).$v
+//@   invariant forall(k, 0, rangeindex + 1, len(nodes[k].tokens) == 1)
+//@   invariant forall(k, 0, len(nodes), below(nodes[k].tokens))
+//@   invariant forall(k, 0, rangeindex + 1, ufInt("big.parse", nodes[k].tokens[0], 10) == -9223372036854775808 + k * (&numTokens).$v)
+
+//@ func proxy.Proxy.buildNodes [C10]
+//@   let step = 18446744073709551615 / (len(p.config.Peers) + 1) + 1
+//@   requires p != nil && p.cluster != nil && p.logger != nil
+//@   ensures ring: err == nil ==> ringOK(p)
+// the ghost p.$localIdx is where the local node ends up in the list (position 0 before sorting)
+//@   init-set p.$localIdx = 0
+//@   after sort.Slice#1 set p.$localIdx = $sortTo[0]
+//@   ensures self-removed: err == nil ==> forall(k, 0, len(p.nodes), p.nodes[k] != p.localNode ==> compareIPAddr(p.localNode.addr, p.nodes[k].addr) != 0)
+//@   ensures distinct-nodes: err == nil ==> forall(i, 0, len(p.nodes), forall(j, 0, len(p.nodes), i != j ==> p.nodes[i] != p.nodes[j]))
+//@   ensures size: err == nil ==> 1 <= len(p.nodes) && len(p.nodes) <= len(p.config.Peers) + 1
+//@   ensures local-dc: err == nil ==> p.localNode.dc == ite(len(p.config.DC) == 0, p.cluster.Info.LocalDC, p.config.DC)
+//@   ensures address-order: err == nil && len(p.config.Tokens) == 0 && len(p.nodes) > 1 ==> forall(i, 0, len(p.nodes), forall(j, i + 1, len(p.nodes), !(compareIPAddr(p.nodes[j].addr, p.nodes[i].addr) < 0)))
+//@   ensures tokens-from-minimum: err == nil && len(p.config.Tokens) == 0 && len(p.nodes) > 1 ==> forall(k, 0, len(p.nodes), len(p.nodes[k].tokens) == 1 && ufInt("big.parse", p.nodes[k].tokens[0], 10) == -9223372036854775808 + k * step)
+//@   ensures single-node-token: err == nil && len(p.config.Tokens) == 0 && len(p.nodes) == 1 ==> len(p.localNode.tokens) == 1 && p.localNode.tokens[0] == strconv.FormatInt(-9223372036854775808, 10)
+//@   ensures configured-tokens: err == nil && len(p.config.Tokens) > 0 ==> p.localNode.tokens == p.config.Tokens && forall(k, 0, len(p.nodes), len(p.nodes[k].tokens) > 0)
+//@   modifies p.localNode, p.nodes, p.$localIdx, $sortTo, $sortFrom
 
 // nameBasedUUID: "host ids are deterministic version-3 UUIDs of the address": the MD5 digest of the
 // name with the version nibble set to 3 and the variant bits to 10 - a function of the name alone.
